@@ -24,7 +24,7 @@ func (g *Graph) Dijkstra(src Vertex) (distTo map[interface{}]int, edgeTo map[int
 	for k, _ := range g.hash {
 		item := &distQueueItem{
 			v:        k,
-			distance: math.MaxInt32,
+			distance: unreached,
 			previous: nil,
 			index:    len(queue),
 		}
@@ -48,6 +48,13 @@ func (g *Graph) Dijkstra(src Vertex) (distTo map[interface{}]int, edgeTo map[int
 		u := heap.Pop(&queue).(*distQueueItem)
 		visited[u.v] = struct{}{}
 
+		// Everything still queued is unreachable from the source. Stop
+		// here: relaxing from an unreached vertex would add to the
+		// sentinel distance.
+		if u.distance == unreached {
+			break
+		}
+
 		// for each unvisited neighbour V of U
 		for vhash, weight := range g.adjacencyOut[u.v] {
 			if _, ok := visited[vhash]; ok {
@@ -57,7 +64,7 @@ func (g *Graph) Dijkstra(src Vertex) (distTo map[interface{}]int, edgeTo map[int
 			v := queueItem[vhash]
 
 			// tempDistance <- distance[U] + edge_weight(U, V)
-			tempDistance := u.distance + int32(weight)
+			tempDistance := u.distance + weight
 
 			// if tempDistance < distance[V]
 			if tempDistance < v.distance {
@@ -74,12 +81,17 @@ func (g *Graph) Dijkstra(src Vertex) (distTo map[interface{}]int, edgeTo map[int
 	distTo = make(map[interface{}]int, len(queueItem))
 	edgeTo = make(map[interface{}]Vertex, len(queueItem))
 	for _, item := range queueItem {
-		distTo[item.v] = int(item.distance)
+		distTo[item.v] = item.distance
 		edgeTo[item.v] = g.hash[item.previous]
 	}
 
 	return distTo, edgeTo
 }
+
+// unreached is the distance of a vertex that has not been reached (yet).
+// Distances are plain ints like the edge weights, so weights and path sums
+// are not limited to the int32 range.
+const unreached = math.MaxInt
 
 // distQueue is a priority queue implementation on top of a heap that
 // is used by Dijkstra to keep track of state. heap.Pop on this queue
@@ -88,7 +100,7 @@ type distQueue []*distQueueItem
 
 type distQueueItem struct {
 	v        interface{} // Vertex hashcode
-	distance int32
+	distance int
 	previous interface{} // Previous vertex hashcode
 	index    int
 }
